@@ -239,66 +239,73 @@ def flow_rule(chk, prog):
 METHODS = ["chiaverini", "hughes", "itzhack", "sarabandi", "shepperd"]
 
 
-def dispatch_table(f):
-    """{method string: (callee name, {kw: default text})} from `if method.lower() == 'x': q = callee(...)` chains"""
-    table = {}
-    for n in ast.walk(f.node):
-        if isinstance(n, ast.If) and isinstance(n.test, ast.Compare) and "method" in ast.unparse(n.test.left) and isinstance(n.test.comparators[0], ast.Constant):
-            key = n.test.comparators[0].value
-            callee, kws = None, {}
-            pre = {}
-            for s in n.body:
-                for a in ast.walk(s):
-                    if isinstance(a, ast.Assign) and isinstance(a.value, ast.Call) and ast.unparse(a.value.func) == "kw.get":
-                        pre[a.targets[0].id] = a.value
-                    if isinstance(a, ast.Call) and isinstance(a.func, ast.Name) and a.func.id in METHODS:
-                        callee = a.func.id
-                        for k in a.keywords:
-                            v = k.value
-                            if isinstance(v, ast.Name) and v.id in pre:
-                                v = pre[v.id]
-                            kws[k.arg] = ast.unparse(v)
-            if callee:
-                table[key] = (callee, kws)
-    return table
-
-
 def dispatch_rule(chk, prog):
-    sites = [QUAT + "::Quaternion.from_DCM", QUAT + "::QuaternionArray.from_DCM", DCM + "::DCM.to_quaternion"]
-    tables = {}
-    for ref in sites:
+    """DISPATCH by interpretation: each route is run with every method name and option; the five converters are
+    intercepted and must be reached under their own name with the option forwarded under the converter's keyword."""
+    from sa.symeval import unit_syms as usy
+    R = E_ref(usy("dq"))
+    R3 = np.stack([R, E_ref(usy("dr"))])
+    conv = {m: ORI + "::" + m for m in METHODS}
+    option_of = {"itzhack": ("version", "version", 2), "sarabandi": ("threshold", "eta", P.sym("thr"))}
+
+    def run_route(route, method, opts):
+        seen = []
+
+        def mk(name):
+            def h_(it, a_, k_):
+                seen.append((name, dict(k_), len(a_)))
+                x = to_obj(a_[0])
+                n = x.shape[0] if x.ndim == 3 else None
+                one = np.array([P.ONE, P.ZERO, P.ZERO, P.ZERO], dtype=object)
+                return np.stack([one] * n) if n else one
+            return h_
+        oracle = lambda c, i: True if c.op in ("isclose", "allclose") else None
+        it = Interp(prog, oracle=oracle, intercepts={ref: mk(m) for m, ref in conv.items()})
+        kwargs = dict(opts)
+        if method is not None:
+            kwargs["method"] = method
+        if route == "Quaternion(dcm=)":
+            it.instantiate(prog.cls(QUAT + "::Quaternion"), [], dict(kwargs, dcm=R.copy()))
+        elif route == "QuaternionArray(DCM=)":
+            it.instantiate(prog.cls(QUAT + "::QuaternionArray"), [], dict(kwargs, DCM=R3.copy()))
+        else:
+            obj = it.make_obj(DCM + "::DCM", data=R.copy(), A=R.copy())
+            it.run(prog.func(DCM + "::DCM.to_quaternion"), [], kwargs, self_obj=obj)
+        return seen
+    for route, ref in (("Quaternion(dcm=)", QUAT + "::Quaternion.from_DCM"), ("QuaternionArray(DCM=)", QUAT + "::QuaternionArray.from_DCM"), ("DCM.to_quaternion", DCM + "::DCM.to_quaternion")):
         f = prog.func(ref)
         chk.touch(f)
-        tables[ref] = dispatch_table(f)
-    ref0 = sites[0]
-    for ref in sites:
-        t = tables[ref]
-        site = ref
-        problems = []
-        for m in METHODS:
-            if m not in t:
-                problems.append("method %r not dispatched" % m)
-            elif t[m][0] != m:
-                problems.append("method %r calls %s" % (m, t[m][0]))
-            elif t[m][1] != tables[ref0][m][1]:
-                problems.append("method %r forwards %s, %s forwards %s" % (m, t[m][1], ref0.split("::")[1], tables[ref0][m][1]))
-        if problems:
-            chk.record("DISPATCH", site, "five methods -> five callees with the same options", verdict="VIOLATION", detail="; ".join(problems))
-            chk.finding("DISPATCH", ref.split("::")[0], ref.split("::")[1], "; ".join(problems)[:150], "dispatchers disagree: " + "; ".join(problems), line=prog.func(ref).node.lineno)
-        else:
-            chk.record("DISPATCH", site, "five methods -> five callees, options %s" % {m: t[m][1] for m in METHODS if t[m][1]})
-    # constructor routes forward kwargs
-    qa = prog.func(QUAT + "::QuaternionArray.__new__")
-    txt = ast.unparse(qa.node)
-    if "QuaternionArray.from_DCM(QuaternionArray, kwargs.pop('DCM'), inplace=False, **kwargs)" in txt:
-        chk.record("DISPATCH", qa.ref, "QuaternionArray(DCM=..., **options) forwards the options to from_DCM")
-    else:
-        chk.error("DISPATCH: the DCM= route of QuaternionArray.__new__ is not in the recognised form (cannot decide option forwarding)")
-    qn = prog.func(QUAT + "::Quaternion.__new__")
-    if "Quaternion.from_DCM(Quaternion, kwargs.pop('dcm'), **kwargs)" in ast.unparse(qn.node):
-        chk.record("DISPATCH", qn.ref, "Quaternion(dcm=..., **options) forwards the options to from_DCM")
-    else:
-        chk.error("DISPATCH: the dcm= route of Quaternion.__new__ is not in the recognised form (cannot decide option forwarding)")
+        for method in [None] + METHODS:
+            want = method or "shepperd"
+            opts = {}
+            if want in option_of:
+                opts = {option_of[want][0]: option_of[want][2]}
+
+            def law(route=route, method=method, want=want, opts=opts):
+                seen = run_route(route, method, opts)
+                names = {n for n, _, _ in seen}
+                if names != {want}:
+                    return (False, "%s with method=%r reaches %s, expected %s" % (route, method, sorted(names) or "no converter", want))
+                if want in option_of:
+                    user_kw, callee_kw, val = option_of[want]
+                    for n, k, nargs in seen:
+                        got = k.get(callee_kw)
+                        if got is None or not (got == val if not hasattr(val, "same") else (hasattr(got, "same") and got.same(val))):
+                            return (False, "%s does not forward %s=%s to %s(%s=...) (got %r)" % (route, user_kw, val, want, callee_kw, got))
+                return True
+            chk.ob("DISPATCH", "%s::%s[method=%s]" % (ref, route, method), "%s with method=%s reaches %s with its option forwarded" % (route, method, want), law,
+                   module=f.module.rel, function=f.qname, construct="dispatch method=%s via %s" % (method, route), line=f.node.lineno)
+    # unknown method names are rejected
+    from sa.symeval import Raised
+    for route, ref in (("Quaternion(dcm=)", QUAT + "::Quaternion.from_DCM"), ("QuaternionArray(DCM=)", QUAT + "::QuaternionArray.from_DCM"), ("DCM.to_quaternion", DCM + "::DCM.to_quaternion")):
+        def rej(route=route):
+            try:
+                run_route(route, "no-such-method", {})
+            except Raised as e:
+                return e.exc_name == "ValueError" or (False, "unknown method raises %s" % e.exc_name)
+            return (False, "unknown method name is not rejected")
+        f = prog.func(ref)
+        chk.ob("DISPATCH", "%s::%s[unknown]" % (ref, route), "an unknown method name raises ValueError", rej, module=f.module.rel, function=f.qname, construct="unknown method rejected via %s" % route)
 
 
 def canaries(chk, prog):
